@@ -6,7 +6,8 @@
 //!   file size {0, 1, blk-1, blk, blk+1, ws*blk, ws*blk+1, 3*ws*blk+7} x {multi-port, single-port},
 //!   a nested / Windows-style request path (stored under its base name), one transfer of more than 65535 blocks (windowsize 64),
 //!   and the refusal kinds (missing file, existing file without overwrite, read-only server): the client must report an
-//!   error and create no file.
+//!   error and create no file.  When the runner has built the real binaries (VERIF_TFTPD / VERIF_TFTPC), four downloads and
+//!   four uploads per port mode and one refusal are repeated with `tftpd` and `tftpc` as processes (main.rs / client_main.rs).
 //! exit 1 with a COUNTEREXAMPLE line on a violation.   usage: bounded_client [quick|full]
 use std::net::UdpSocket;
 use std::path::{Path, PathBuf};
@@ -213,6 +214,60 @@ fn main() {
         }
     }
     std::env::set_current_dir("/").unwrap();
+    // ---- the real binaries (main.rs / client_main.rs glue), when the runner has built them ---------------------------------
+    if let (Ok(tftpd), Ok(tftpc)) = (std::env::var("VERIF_TFTPD"), std::env::var("VERIF_TFTPC")) {
+        use std::process::{Command, Stdio};
+        let root = base.join("bins");
+        let (out_dir, in_dir, cdir) = (root.join("out"), root.join("in"), root.join("client"));
+        for d in [&out_dir, &in_dir, &cdir] { std::fs::create_dir_all(d).unwrap(); }
+        for single in [false, true] {
+            let port = free_port();
+            let mut args = vec!["-p".to_string(), port.to_string(), "-sd".into(), out_dir.display().to_string(), "-rd".into(), in_dir.display().to_string()];
+            if single { args.push("-s".into()); }
+            let mut server = Command::new(&tftpd).args(&args).stdout(Stdio::null()).stderr(Stdio::null()).spawn().unwrap();
+            std::thread::sleep(Duration::from_millis(150));
+            let mode = if single { "single-port" } else { "multi-port" };
+            let run = |extra: &[&str], cwd: &Path| {
+                let mut c = Command::new(&tftpc);
+                c.args(extra).args(["-p", &port.to_string(), "-t", "2"]).current_dir(cwd).stdout(Stdio::null()).stderr(Stdio::piped());
+                let child = c.spawn().unwrap();
+                let (tx, rx) = std::sync::mpsc::channel();
+                std::thread::spawn(move || { let _ = tx.send(child.wait_with_output()); });
+                match rx.recv_timeout(Duration::from_secs(60)) {
+                    Ok(Ok(o)) => String::from_utf8_lossy(&o.stderr).to_string(),
+                    _ => "tftpc did not finish within 60 s".to_string(),
+                }
+            };
+            for (k, (size, blk, ws)) in [(0usize, 512usize, 1u16), (1300, 512, 1), (5000, 1024, 4), (70000, 1468, 8)].iter().enumerate() {
+                cases += 2;
+                let data = content(*size, 40 + k);
+                let name = format!("bin-d{k}-{mode}.bin");
+                std::fs::write(out_dir.join(&name), &data).unwrap();
+                let what = format!("tftpc download of a {size}-byte file (-b {blk} -w {ws}) from tftpd, {mode}");
+                let err = run(&[&name, "-d", "-b", &blk.to_string(), "-w", &ws.to_string(), "-rd", cdir.to_str().unwrap()], &cdir);
+                if let Err(e) = wait_for(&cdir.join(&name), &data) {
+                    let _ = server.kill();
+                    fail(format!("{what}: {e}; tftpc stderr: {:?}", err.trim()));
+                }
+                let name = format!("bin-u{k}-{mode}.bin");
+                std::fs::write(cdir.join(&name), &data).unwrap();
+                let what = format!("tftpc upload of a {size}-byte file (-b {blk} -w {ws}) to tftpd, {mode}");
+                let err = run(&[&name, "-u", "-b", &blk.to_string(), "-w", &ws.to_string()], &cdir);
+                if let Err(e) = wait_for(&in_dir.join(&name), &data) {
+                    let _ = server.kill();
+                    fail(format!("{what}: {e}; tftpc stderr: {:?}", err.trim()));
+                }
+            }
+            cases += 1;
+            let err = run(&["absent.bin", "-d", "-rd", cdir.to_str().unwrap()], &cdir);
+            if err.trim().is_empty() || cdir.join("absent.bin").exists() {
+                let _ = server.kill();
+                fail(format!("tftpc download of a missing file, {mode}: stderr {:?}, file created: {}", err.trim(), cdir.join("absent.bin").exists()));
+            }
+            let _ = server.kill();
+            let _ = server.wait();
+        }
+    }
     let _ = std::fs::remove_dir_all(&base);
     println!("bounded_client: cases={} violations=0", cases);
 }
